@@ -148,7 +148,7 @@ def complete_ordering_constraint_against_id_order(case, v):
     below one of its options, so it can be activated earlier or independently): the ordering is applied in activation order: duplicated / missing architectures, NoOptionError while decoding"""
     spec = _spec(case)
     enc = case.get('enc') or case.get('mode') or _d(v).get('mode')
-    if enc not in ('COMPLETE', None):
+    if enc not in ('COMPLETE', None) and v.get('kind') != 'reachable_set_differs_from_complete':
         return False
     return _activation_against_id_order(spec, ('UNORDERED', 'UNORDERED_NOREPL'))
 
@@ -280,3 +280,40 @@ def fast_zero_option_choice(case, v):
     spec = _spec(case)
     enc = case.get('enc') or case.get('mode') or _d(v).get('enc')
     return enc == 'FAST' and bool(spec.get('incompat')) and 'There are no feasible graphs' in _msg(v)
+
+
+def same_origin_choices_share_two_options(case, v):
+    """KF18: two selection choices on the same originating node that share >= 2 option nodes: assigning (A, B) or (B, A)
+    yields the identical graph (same added origin->option edges), yet both are encoded/enumerated as different designs"""
+    spec = _spec(case)
+    ch = spec.get('choices', [])
+    for i, a in enumerate(ch):
+        for b in ch[i+1:]:
+            if a['origin'] == b['origin'] and len(set(a['opts']) & set(b['opts'])) >= 2:
+                return True
+    return False
+
+
+def eager_direct_hit_activeness_graph_level(case, v):
+    """KF02 at graph level: the connection variables of a decoded design are all reported active when the vector hits a
+    stored design vector directly, and partly inactive when the same design is reached through correction"""
+    spec = _spec(case)
+    d = _d(v)
+    if not spec.get('conns'):
+        return False
+    if v['kind'] == 'not_a_fixed_point':
+        return d.get('what') == 'activeness'
+    if v['kind'] == 'unconditional_variable_inactive':
+        # a connection variable of an existence pattern with a single matrix is inactive, yet not flagged conditional
+        return d.get('kind_var') == 'conn'
+    kinds = d.get('kinds')
+    return True if kinds is None else ('conn' in kinds)
+
+
+def fast_constraint_autoresolved_choice_inactive(case, v):
+    """KF20: FAST encoder with a choice constraint over selection choices or an incompatibility: when taking one choice
+    leaves another (permanent) choice with a single option, that choice is resolved automatically and its variable is reported inactive at value 0,
+    although the choice is permanent (not flagged conditionally active) and took another option"""
+    spec = _spec(case)
+    enc = case.get('enc') or case.get('mode') or _d(v).get('enc')
+    return enc == 'FAST' and (any(True for _ in _choice_constraints(spec)) or bool(spec.get('incompat')))
